@@ -11,7 +11,7 @@ def const_name(t):
     """Last path segment of a named constant term, else None."""
     t = strip(t)
     if t[0] == "const" and t[2]:
-        return t[2].rsplit("::", 1)[-1]
+        return t[2].split("<")[0].rsplit("::", 1)[-1]
     return None
 
 
